@@ -286,7 +286,7 @@ func cmdCheck(args []string) int {
 
 // obligations named by source-order ordinal (safety checks) are not pinned in the claims file:
 // a harmless edit that adds or removes an index expression renumbers them
-var ordinalName = regexp.MustCompile(`/(index|slice|div|nil|make|assert|panic|pre|conv|overflow|decreases)#\d+$`)
+var ordinalName = regexp.MustCompile(`/(index|slice|div|nil|make|assert|panic|pre|conv|overflow|decreases|bits)#\d+$`)
 
 var propNotes = map[string]map[string]interface{}{}
 
